@@ -76,6 +76,50 @@ theorem rel_bindTo {k : Nat} {s : St} {l : Taint} (d src : Nat) (h : Rel k s l) 
       exact Or.inr (by simpa [Taint.has] using h1)
     · exact h1
 
+/-- binding a destination to some buffer that is an input buffer only if `flag` says so -/
+theorem rel_bindTo' {k : Nat} {s : St} {l : Taint} (d : Nat) (ob : Option Nat) (flag : Bool) (h : Rel k s l)
+    (hf : ∀ b, ob = some b → b < k → flag = true) :
+    Rel k (s.bindTo d ob) (if flag then d :: l.clear d else l.clear d) := by
+  obtain ⟨hn, henv, hd⟩ := h
+  refine ⟨by simpa [St.bindTo] using hn, ?_, by simpa [St.bindTo] using hd⟩
+  intro v b hv hb
+  simp only [St.bindTo] at hv
+  by_cases hvd : v = d
+  · simp only [hvd, if_true] at hv
+    rw [if_pos (hf b hv hb), hvd]
+    simp [Taint.has]
+  · simp only [hvd, if_false] at hv
+    have h1 : (l.clear d).has v = true := has_clear.mpr ⟨henv v b hv hb, hvd⟩
+    split
+    · simp only [Taint.has, List.contains_cons, Bool.or_eq_true]
+      exact Or.inr (by simpa [Taint.has] using h1)
+    · exact h1
+
+/-- filling one slot of a wrapper primitive's result: the source is read in the state `pre` the primitive
+    was called in, whose abstraction is `l0` -/
+theorem rel_bindPart {k : Nat} {s pre : St} {l l0 : Taint} (p : Part) (sh : Bool)
+    (hpre : Rel k pre l0) (h : Rel k s l) (hok : p.admits sh) :
+    Rel k (s.bindPart pre p sh) (l.bindPart l0 p) := by
+  cases sh with
+  | true =>
+    simp only [St.bindPart, if_true, Taint.bindPart]
+    refine rel_bindTo' p.dst _ (p.tainted l0) h ?_
+    intro b hb hlt
+    simp only [Part.admits, if_true] at hok
+    cases hsrc : p.src with
+    | none => simp [hsrc] at hb
+    | some x =>
+      simp only [hsrc, Option.bind_some] at hb
+      simp [Part.tainted, hok, hsrc, hpre.2.1 x b hb hlt]
+  | false =>
+    simp only [St.bindPart, Bool.false_eq_true, if_false, Taint.bindPart]
+    refine (rel_bindFresh p.dst h).weaken ?_
+    intro v hv
+    split
+    · simp only [Taint.has, List.contains_cons, Bool.or_eq_true]
+      exact Or.inr (by simpa [Taint.has] using hv)
+    · exact hv
+
 theorem step_rel {k : Nat} {s s' : St} {l l' : Taint} {o : Op}
     (hx : OpStep o s s') (h : Rel k s l) (ha : astep l o = some l') : Rel k s' l' := by
   cases hx with
@@ -112,6 +156,9 @@ theorem step_rel {k : Nat} {s s' : St} {l l' : Taint} {o : Op}
           exact hnot (henv d x hed hx)
         simp [St.mark, hbx, hd x hx]
   | unknown => simp [astep] at ha
+  | build a b c x y z _ ha' hb' hc' =>
+    simp only [astep, Option.some.injEq] at ha; subst ha
+    exact rel_bindPart c z h (rel_bindPart b y h (rel_bindPart a x h h ha') hb') hc'
 
 /-- what `aloop` returns is a post-fixpoint of the abstract body that contains the entry taint -/
 theorem aloop_spec {f : Taint → Option Taint} {fuel : Nat} {l m : Taint}
